@@ -291,7 +291,7 @@ TEXTS = {
         "text": "Theorems (Properties/C20.v, about the Gallina transcription, unbounded): parse(show n) = Ok n for EVERY n <= u32::MAX (induction "
                 "over digits, not enumeration); big-endian byte round trip; rendered shape 'HP:' + >= 7 digits; the parser never panics on any "
                 "byte string. Tied to the crate by sweeping ALL ids 0..10^7+1 and the u32 borders through to_string/try_from/to_be_bytes/from, "
-                "and by diffing model and crate on generated texts (multi-byte characters at every offset). EXACT ACCEPTANCE (C20_parse_accepts_exactly, C20_parse_error_kind): parsing returns Ok n iff the text has the minimal length, byte 3 is a character boundary and the rest is an optional + and a non-empty ASCII digit string of decimal value n <= u32::MAX; every other text is Err(ParseIntError).",
+                "and by diffing model and crate on generated texts (multi-byte characters at every offset). EXACT ACCEPTANCE (C20_parse_accepts_exactly, C20_parse_error_kind): parsing returns Ok n iff the text has the minimal length, byte 3 is a character boundary and the rest is an optional + and a non-empty ASCII digit string of decimal value n <= u32::MAX; every other text is Err(ParseIntError). EXACT RENDERING (C20_show_is_padded_decimal): the digits after HP: have decimal value n, exactly seven of them for every id below 10^7, no leading zero beyond.",
         "design_ref": "DESIGN.md §4 C20", "note": NOTE_COMMON + "u32::from_str grammar as documented by core.", "technique": TECH,
     },
     "C12": {
